@@ -70,6 +70,29 @@ func C15(run *core.Run) {
 	if err != nil {
 		core.Fatal("PeerSession generation: %v", err)
 	}
+	if run.Thorough() {
+		// longer sessions: random walks of ten messages over both peers
+		long := strings.Replace(peerCfg, "MaxMsgs = 3", "MaxMsgs = 10", 1)
+		cur := ""
+		curLen := 0
+		_, err = core.RunTLC(core.TLCOpts{Module: "PeerSession", CfgText: fmt.Sprintf(long, "TRUE", "VIEW GenView\nACTION_CONSTRAINT EmitEdge"), Workers: 1, Timeout: 10 * time.Minute,
+			Args: []string{"-simulate", "num=400", "-depth", "11", "-seed", fmt.Sprint(run.Seed)},
+			OnLine: func(line string) {
+				if js, ok := core.ParseB(line, "B"); ok {
+					n := strings.Count(js, "\"code\"")
+					if cur != "" && n <= curLen {
+						behaviours = append(behaviours, cur)
+					}
+					cur, curLen = js, n
+				}
+			}})
+		if err != nil {
+			core.Fatal("PeerSession simulation: %v", err)
+		}
+		if cur != "" {
+			behaviours = append(behaviours, cur)
+		}
+	}
 	dir, err := os.MkdirTemp(core.Scratch(), "peers-")
 	if err != nil {
 		core.Fatal("%v", err)
@@ -111,7 +134,7 @@ func C15(run *core.Run) {
 		fmt.Sscan(last, &n)
 		run.Traces += int64(n + 1)
 	}
-	run.Set("peer_behaviours", fmt.Sprintf("%d behaviours (one per transition, <= 3 messages, 2 peers) replayed over p2p.MsgPipe against a node with a 600-momentum chain", len(behaviours)))
+	run.Set("peer_behaviours", fmt.Sprintf("%d behaviours (one per transition, <= 3 messages, 2 peers; in the thorough tier also 400 random walks of ten messages) replayed over p2p.MsgPipe against a node with a 600-momentum chain", len(behaviours)))
 	if len(behaviours) > 50 {
 		var b peerBehaviour
 		json.Unmarshal([]byte(behaviours[50]), &b)
